@@ -29,12 +29,15 @@ def main(argv=None):
     for m in mods:
         if a.only and m not in a.only:
             continue
-        mod = importlib.import_module(m)
         target = os.path.join(a.out, 'T_' + m[2:] + '.v')
         try:
+            mod = importlib.import_module(m)
             body = mod.emit(src)
         except astlib.TableError as e:
             failed.append((m, str(e)))
+            continue
+        except Exception as e:      # a translator that crashes is as fail-closed as one that aborts
+            failed.append((m, 'translator crashed: %s: %s' % (type(e).__name__, e)))
             continue
         text = astlib.HEADER % {'repo': 'the repository sources', 'what': mod.WHAT} + body
         old = open(target).read() if os.path.exists(target) else None
